@@ -209,14 +209,38 @@ def make_component(c, layout, variant):
         def execute(self):
             HOOK("execute", comp_name(self, c))
         ns["execute"] = execute
+    forms = layout.get("hookform", {}).get(c, {})
+    attr_hooks = []
     for k in ("setup", "on_enable", "on_disable"):
         if has[k]:
+            form = "method" if is_sm else forms.get(k, "method")
+            # a hook is whatever getattr(component, name) gives and can be called: a static or class method, or a
+            # callable stored on the instance, as well as a plain method
+            if form == "static":
+                ns[k] = staticmethod(lambda k=k: HOOK(k, c))
+                continue
+            if form == "class":
+                ns[k] = classmethod(lambda cls_, k=k: HOOK(k, c))
+                continue
+            if form == "attr":
+                attr_hooks.append(k)
+                continue
+
             def f(self, k=k):
                 HOOK(k, comp_name(self, c))
                 if is_sm and k != "setup":
                     getattr(StateMachine, k)(self)
             f.__name__ = k
             ns[k] = f
+    if attr_hooks:
+        import functools
+        init0 = ns["__init__"]
+
+        def __init__(self):
+            init0(self)
+            for k in attr_hooks:
+                setattr(self, k, functools.partial(HOOK, k, c))
+        ns["__init__"] = __init__
     for g in layout["feedbacks"]:
         if g["o"] == c:
             add_getter(ns, c, g["key"], variant, g.get("ty", "int"), g.get("sann", False), g.get("inplace", False),
@@ -608,6 +632,10 @@ def gen_layout(rng, uid):
             "period": rng.choice([20000, 20000, 5000, 15625]),
             "inherit": inherit, "redeclare": redeclare, "shadow": shadow, "sm": sm, "sameclass": sameclass,
             "initassign": initassign, "derive": derive, "derive_redecl": derive_redecl,
+            "hookform": {c: {k: rng.choice(["method", "method", "static", "class", "attr"])
+                             for k in ("setup", "on_enable", "on_disable")}
+                         for c in comps if c not in sameclass and c not in sameclass.values()
+                         and c not in derive and c not in derive.values() and rng.random() < 0.4},
             "robot_split": rng.randint(0, n)}
 
 
